@@ -32,22 +32,32 @@ def getSwapInfo (stBonded bBonded stAvail bAvail r rinv : Nat) : Option (Bool ×
 /-- keeper cut and remainder of one coin balance -/
 def keeperCut (bal rate : Nat) : Nat := mulDec bal rate
 
+/-- bSei-reward coin: keeper cut, then the remainder to the reward contract
+    (`amount - keeper` fails only for a keeper rate above one) -/
+def coinMsgsB (c : DispSt) (self : Addr) (bBal : Nat) : Res (List Msg) :=
+  if bBal = 0 then .ok []
+  else if bBal < keeperCut bBal c.keeperRate then .error "overflow"
+  else .ok [Msg.bankSend self c.keeper c.bDenom (keeperCut bBal c.keeperRate),
+            Msg.bankSend self c.rewardContract c.bDenom (bBal - keeperCut bBal c.keeperRate)]
+
+/-- stSei-reward coin: keeper cut, then the remainder re-bonded through the hub (skipped when zero) -/
+def coinMsgsSt (c : DispSt) (self : Addr) (stBal : Nat) : Res (List Msg) :=
+  if stBal = 0 then .ok []
+  else if stBal < keeperCut stBal c.keeperRate then .error "overflow"
+  else if stBal - keeperCut stBal c.keeperRate = 0 then
+    .ok [Msg.bankSend self c.keeper c.stDenom (keeperCut stBal c.keeperRate)]
+  else
+    .ok [Msg.bankSend self c.keeper c.stDenom (keeperCut stBal c.keeperRate),
+         Msg.wasm self c.hub (.hub .bondRewards) [(c.stDenom, stBal - keeperCut stBal c.keeperRate)]]
+
 /-- messages of `execute_dispatch_rewards` for the two balances -/
-def dispatchMsgs (c : DispSt) (self : Addr) (stBal bBal : Nat) : Res (List Msg) := do
-  let m1 : List Msg ←
-    if bBal = 0 then pure []
-    else
-      let k := keeperCut bBal c.keeperRate
-      let rest ← csub bBal k
-      pure [Msg.bankSend self c.keeper c.bDenom k, Msg.bankSend self c.rewardContract c.bDenom rest]
-  let m2 : List Msg ←
-    if stBal = 0 then pure []
-    else
-      let k := keeperCut stBal c.keeperRate
-      let rest ← csub stBal k
-      pure ([Msg.bankSend self c.keeper c.stDenom k] ++
-        (if rest = 0 then [] else [Msg.wasm self c.hub (.hub .bondRewards) [(c.stDenom, rest)]]))
-  pure (m1 ++ m2 ++ [Msg.wasm self c.rewardContract (.reward .updateGlobalIndex) []])
+def dispatchMsgs (c : DispSt) (self : Addr) (stBal bBal : Nat) : Res (List Msg) :=
+  match coinMsgsB c self bBal with
+  | .error e => .error e
+  | .ok m1 =>
+    match coinMsgsSt c self stBal with
+    | .error e => .error e
+    | .ok m2 => .ok (m1 ++ m2 ++ [Msg.wasm self c.rewardContract (.reward .updateGlobalIndex) []])
 
 /-- environment the dispatcher reads: its own bank balances, the oracle and swap-simulation
     answers (`none` = query failed / undecodable). -/
